@@ -438,6 +438,17 @@ def call(it, e: ast.Call, fr):
         args = [it.ev(a, fr) for a in e.args]
         kwargs = {k.arg: it.ev(k.value, fr) for k in e.keywords}
         return method(it, f.recv, f.name, args, kwargs, fr, e)
+    if isinstance(f, VRecordType):
+        args = [it.ev(a, fr) for a in e.args]
+        kwargs = {k.arg: it.ev(k.value, fr) for k in e.keywords}
+        if len(args) + len(kwargs) != len(f.fields) or any(k not in f.fields for k in kwargs):
+            raise Raised("TypeError", f"{f.name}() arguments")
+        attrs = dict(zip(f.fields, args))
+        attrs.update(kwargs)
+        if set(attrs) != set(f.fields):
+            raise Raised("TypeError", f"{f.name}() arguments")
+        attrs["__fields__"] = f.fields
+        return VObj("record:" + f.name, attrs)
     if isinstance(f, VClosure):
         args = [it.ev(a, fr) for a in e.args]
         kwargs = {k.arg: it.ev(k.value, fr) for k in e.keywords}
